@@ -1,12 +1,12 @@
 """C14 — fluent node names identify computations; operations leave operands intact.
 
 Tie: for random fluent programs every node of every resulting graph is re-named by the model
-(Model/Names.lean renders `fname + repr(args) + repr(kwargs) + repr([input names])` + `|outputs=n` unless n = 1,
-Python applies sha256) bottom-up and compared with the real `Node.name`; `from_source` labels likewise.
+(Model/Names.lean renders `fname + repr(args) + repr(kwargs) + repr([input names])` + `|outputs=n` unless n = 1 — sets with
+their elements in sorted order —, Python applies sha256) bottom-up and compared with the real `Node.name`; `from_source` labels likewise.
 The statements whose code path writes to `Action.nodes` in place or hands back an existing object —
 `transform` with a func that hands back an existing action (or the receiver), stack/concatenate on a
-dimension of size 1, select/iselect without criteria — are replayed on the heap model (`Names.transformH`,
-`combineH`, `selectH`): the node array of the result, WHICH object the result is, and the node array of every
+dimension of size 1, select/iselect without criteria or with ONE criterion on a scalar coordinate, join and arithmetic between
+two actions — are replayed on the heap model (`Names.transformH`, `combineH`, `selectH`, `joinH`, `arithH`): the node array of the result, WHICH object the result is, and the node array of every
 action object that existed before are compared with the real ones, node object by node object.
 Oracle (from the property text, independent of the model):
  (a) building the same program twice gives the same names — twice in this process AND twice in a fresh
@@ -17,7 +17,7 @@ Oracle (from the property text, independent of the model):
      the union, exactly one node per distinct computation, two builds of one program unite to one, the union serialises
      and lowers to exactly its nodes, no union changes an earlier union or node objects of existing actions, a new
      Cascade() is empty;
- (d) dims / coords / node identities of EVERY live action (not only the operands) and what every node object of
+ (d) dims / coords (values with their types, dtype, order, attributes, indexes) / attributes / dtype / node identities of EVERY live action (not only the operands) and what every node object of
      every live action holds (name, payload, inputs by object, outputs) are snapshotted around each operation
      and must not change.
 """
@@ -31,50 +31,75 @@ for _v in ("OMP_NUM_THREADS", "OPENBLAS_NUM_THREADS", "MKL_NUM_THREADS"):
     os.environ.setdefault(_v, "1")   # before NumPy is first imported: node arrays are object arrays, BLAS thread pools only cost time
 
 PROPERTY = "C14"
-LEVEL_TEXT = ("Lean theorems over Model/Names.lean. Names: a node name is a function of (callable __name__, statics, input names) only; for an "
-              "injective hash, uniquely decodable statics, callables distinguished by __name__ and plain input names, equal names imply equal "
-              "(callable, statics, inputs) — the rendering of the input-name list is proved injective, not assumed, so the same inputs in a "
-              "different order give a different name; by induction over the depth of the graph (source nodes and '<parent>.<output>' input "
-              "names included, which are proved never to collide with node names) equal names imply the same computation all the way "
-              "down; the number of outputs is part of the name. What the name does not cover is refuted by witnesses: callables of "
-              "equal __name__, statics with a lossy repr. Unions: de-duplication keeps every computation exactly once and is idempotent over two builds; where "
-              "names identify computations the names of the union are pairwise different and lowering by name finds the computation. "
-              "Existing actions: Action.transform, stack/concatenate and select are modelled on a heap of action objects with their in-place "
-              "writes (_add_dimension, _squeeze_dimension) and their hand-backs of existing objects; for every func (new action, the "
-              "receiver, any previously built action), every heap and every history of operations no existing action object changes, only "
-              "the documented operations hand back an existing object, the heap model agrees with the value model of C13, and re-wrapping "
-              "func's result only when it is the receiver is refuted by a witness. Tied to the real fluent API by re-deriving every real "
-              "node name from the model's rendering, by replaying the in-place / hand-back statements on the heap model, and by the oracles.")
-LEVEL_NOTE = ("modelled, not verified: fluent.py Payload.__str__/name, Node.__init__ naming, from_source label uniqueness, Action.join/"
-              "broadcast/reduce as store operations, Action.transform/_combine_nodes/select with _add_dimension/_squeeze_dimension as heap "
-              "operations (the in-place squeeze inside the batching loop of reduce is modelled at value level only), deduplicate_nodes as "
-              "first-occurrence de-duplication of equal computations; sha256 is applied by the harness to the model's rendering (collision "
-              "freedom and hex digests are the hypotheses `Function.Injective H`, `Clean (H s)`); Python repr is modelled for int/str/"
-              "float/bool/None/list/tuple/dict only (nodes with other statics are judged by the oracle only); unique decodability of the "
-              "statics' repr is a hypothesis and FAILS for lossy reprs (known findings); Python object identity is observed by the snapshots "
-              "and by node-object ids compared with the heap model; the func passed to transform is one of three kinds (TFunc); the real "
-              "union path (Cascade, deduplicate_nodes, serialise, graph2job) is covered by the oracle, its model is the list-level dedupNodes")
-TECHNIQUE = ("Lean 4 proof (string decomposition lemmas on List Char; mutual induction over computation terms; write-set invariant of a heap model) "
-             "+ differential correspondence of node names and of heaps around in-place / hand-back statements + snapshots of every existing action "
-             "and node object around every operation + the real Cascade union / serialise / graph2job path + rebuilds in fresh interpreters")
-LEAN_PROPS = ["EkwVerif.Props.C14"]
+LEVEL_TEXT = ("Lean theorems over Model/Names.lean (Props/C14, C14b, C14c). Names: a node name is a function of (callable __name__, statics, input "
+              "names, number of outputs) only (congruence of the model's rendering; that the real rendering of a static is a function of its "
+              "value is proved for sets — the elements are listed in sorted order, so the name is the same for every iteration order, and "
+              "without the sort it is not — and otherwise judged by rebuilds in fresh interpreters); for an injective hash, uniquely "
+              "decodable statics, callables distinguished by __name__ and plain input names, equal names imply equal (callable, statics, "
+              "inputs) — the rendering of the input-name list is proved injective, not assumed, so the same inputs in a different order give "
+              "a different name; by induction over the depth of the graph (source nodes and '<parent>.<output>' input names included, which "
+              "are proved never to collide with node names) equal names imply the same computation all the way down; unique decodability of "
+              "the statics' rendering is a HYPOTHESIS there; it is PROVED for the real rendering of positional and keyword arguments that "
+              "are plain strings or natural numbers (['input0', 3]{'axis': 0}), which gives the deep statement for whole graphs of such "
+              "payloads (functools.partial sources included) under the hash and __name__ hypotheses only; negative numbers, floats, bools, "
+              "None and containers as statics stay under the hypothesis; the number of outputs is part of the name. What the name does not cover is refuted by witnesses: callables of equal "
+              "__name__, statics with a lossy repr. Unions: first-occurrence de-duplication keeps every computation exactly once and is "
+              "idempotent over two builds; the real union compares statics with `==` and is that de-duplication only where `==` is equality "
+              "on the statics at hand (partial; refuted in general: a.power(2) / a.power(2.0), known finding); where names identify "
+              "computations the names of the union are pairwise different and lowering by name finds the computation. Existing actions: "
+              "Action.transform, stack/concatenate, select, join and arithmetic between actions are modelled on a heap of action objects with "
+              "the assignments the code performs (_add_dimension, _squeeze_dimension, the relabelled array of join(match_coord_values)) and "
+              "their hand-backs of existing objects; for every func (new action, the receiver, any previously built action), every heap and "
+              "every history of transform / stack / concatenate / select statements, and for every history of joins and arithmetic between "
+              "any two action objects (coordinate values equal or different), no existing action object changes and only the documented "
+              "operations hand back an existing object; the heap model agrees with the value model of C13; the two variants of the code that "
+              "break it (re-wrapping func's result only when it is the receiver; storing the relabelled array into the operand, the pinned "
+              "join defect) are refuted by witnesses. broadcast, reduce, map, expand have no assignment to an existing action in the code: "
+              "for them the clause is carried by the snapshots of the tie only (their step in the model appends by definition). Tied to the "
+              "real fluent API by re-deriving every real node name from the model's rendering, by replaying the in-place / hand-back "
+              "statements, select on scalar coordinates, join and arithmetic on the heap model, and by the oracles.")
+LEVEL_NOTE = ("modelled, not verified: fluent.py Payload.__str__/_render/name, Node.__init__ naming, from_source label uniqueness, Action.join and "
+              "__two_arg_method as heap operations (joinH, arithH), broadcast/reduce as store operations (append by definition: nothing is "
+              "proved about them beyond the value model of C13), Action.transform/_combine_nodes/select with _add_dimension/"
+              "_squeeze_dimension/_validate_criteria as heap operations (the in-place squeeze inside the batching loop of reduce is modelled "
+              "at value level only), deduplicate_nodes as first-occurrence de-duplication by a predicate; sha256 is applied by the harness to "
+              "the model's rendering (collision freedom and hex digests are the hypotheses `Function.Injective H`, `Clean (H s)`); Python "
+              "repr is modelled for int/str/float/bool/None/list/tuple/dict/set/frozenset only (nodes with other statics — arrays, objects "
+              "— are judged by the oracle only, counted as nodes_with_unmodelled_statics); unique decodability of the statics' repr is a "
+              "hypothesis (discharged for Unit, PlainArgs and SimpleStatics = plain strings / natural numbers, positional and keyword) and FAILS for lossy reprs (known findings); c14_operands_intact is a fact "
+              "about the append-only value store and carries no clause; Python object identity is observed by the snapshots and by "
+              "node-object ids compared with the heap model; the func passed to transform is one of three kinds (TFunc); the real union path "
+              "(Cascade, deduplicate_nodes, serialise, graph2job) is covered by the oracle, its model is the list-level dedupNodes / dedupBy")
+TECHNIQUE = ("Lean 4 proof (string decomposition lemmas on List Char; mutual induction over computation terms; sortedness + permutation "
+             "for set renderings; write-set invariant of a heap model) "
+             "+ differential correspondence of node names and of heaps around in-place / hand-back / binary statements + snapshots of every "
+             "existing action and node object around every operation + the real Cascade union / serialise / graph2job path + rebuilds in "
+             "fresh interpreters with another string-hash seed")
+LEAN_PROPS = ["EkwVerif.Props.C14", "EkwVerif.Props.C14b", "EkwVerif.Props.C14c"]
 LEAN_DRIVERS = ["C14"]
-RULE = ("random fluent programs as in C13 (shared sources, branches) extended with pairs of different callables of equal __name__ "
-        "(two lambdas, two functions called `scale`, two reduce lambdas), repeated identical operations, equal callables with different "
+RULE = ("random fluent programs as in C13 (shared sources, branches; a quarter of them from C13's extended vocabulary: several criteria, "
+        "**kwargs, arrays of payloads, registered actions, backend keyword arguments) extended with pairs of different callables of equal "
+        "__name__ (two lambdas, two functions called `scale`, two reduce lambdas), repeated identical operations, equal callables with different "
         "statics, binary operations between actions whose coordinate values differ (match_coord_values), non-commutative binary "
         "operations with swapped operands (a-b and b-a, a/b and b/a), order-sensitive reductions over the same nodes joined / selected "
         "in a different order, stack/concatenate on size-1 dimensions, transform with an identity function and with functions that "
         "look up previously built actions (other than the receiver, lacking the join dimension; one or several parameters), the same "
         "callable with one and with several outputs (yields), statics of other types (nested lists, dict/list-valued keyword arguments, "
         "2000-element arrays differing at one index, objects with the default repr: one per process / one per build), select/iselect "
-        "without criteria followed by operations on the object handed back. Every program is built three times in the check process "
-        "(names, unions); the witnesses and a sample (40 quick / 600 thorough) are also built twice in fresh interpreters (pristine module "
-        "state, different string-hash seed). non-trivial = program with >= 2 non-source statements; distinct by content hash")
+        "without criteria followed by operations on the object handed back; second audit: the same operation with scalars that compare "
+        "equal but differ in type (2 / 2.0 / True; a.add, a.power, affine, positional statics, mixed lists and tuples), criteria on SCALAR "
+        "coordinates (matched: the action itself is handed back; refused; repeated; followed by map / transform / join / arithmetic on the "
+        "receiver), set / frozenset statics (positional, keyword, nested in lists and dicts; the same set written in two orders, another "
+        "set, a list of the same elements). Every program is built three times in the check process (names, unions); the witnesses and "
+        "a sample (40 quick / 600 thorough) are also built twice in fresh interpreters (pristine module state, different string-hash seed) "
+        "and compared with the builds of the check process. non-trivial = program with >= 2 non-source statements; distinct by content hash")
 ASSUMPTIONS = [
     "sha256 is collision free on the rendered strings and its digests are hex strings (hypotheses `Function.Injective H`, `Clean (H s)`)",
     "callable identity is Python object identity (`is`) of the payload function",
-    "the correspondence of names covers statics that are ints, floats, strings, bools, None, lists, tuples, string-keyed dicts; other statics (arrays, objects) are judged by the oracle only",
+    "static arguments of different types are different static arguments (2, 2.0 and True are three statics: the results differ in dtype); Python's `==` is not the notion of 'same static arguments'",
+    "the correspondence of names covers statics that are ints, floats, strings, bools, None, lists, tuples, string-keyed dicts, sets, frozensets; other statics (arrays, objects) are judged by the oracle only",
     "the func given to transform is one of: builds a new action from the receiver, returns the receiver, returns an action built before (TFunc)",
+    "a difference between two builds is attributed to the known finding `address-in-repr` only where every node at which the difference starts (resp. every differing position of a fresh build) has a static argument rendered with its address among what it is computed from",
 ]
 
 # ----------------------------------------------------------------------------- program generation
@@ -88,10 +113,26 @@ def _ok(g, k):
     return k is not None and not isinstance(g.env[k], tuple)
 
 
+EXT_SHARE = 0.25     # share of programs drawn from C13's extended vocabulary (several criteria, **kwargs, mapn, registered actions, …)
+
+
 def gen_program(rng, max_ops=4):
     from ekw import c13_fluent as F
-    g = F.Gen(rng, max_ops=max_ops, max_pos=24)
+    ext = rng.random() < EXT_SHARE
+    g = F.Gen(rng, max_ops=max_ops, max_pos=24, ext=ext)
     g.generate()
+    if ext:
+        g.prog["ext"] = True
+    # second audit: scalars of different types that compare equal, criteria on scalar coordinates, unordered statics
+    for _ in range(rng.randint(0, 2)):
+        lv = g.live()
+        if not lv:
+            break
+        k = rng.choice(lv)
+        try:
+            _typed_extra(g, rng, k, g.dims_of(k))
+        except Exception as e:
+            g.prog.setdefault("gen_notes", []).append(f"{type(e).__name__}: {str(e)[:80]}")
     # C14 extras on top of the C13 program: same operand, same statics, different / same callables
     for _ in range(rng.randint(2, 5)):
         lv = g.live()
@@ -177,6 +218,96 @@ def _extra(g, rng, k, dims, r):
         _lookup_transform(g, rng, k)
     else:
         _more_extras(g, rng, k, dims)
+
+
+_SET_POOL = ["2t", "msl", "tp", "10u", "10v", "q", "z", "t", "sp", "lsm", "sd", "tcc"]
+_EQUAL_SCALARS = [[2, 2.0], [1, 1.0, True], [0, 0.0, False], [3, 3.0], [-1, -1.0], [2, 2.0, 2.5]]
+
+
+def _typed_extra(g, rng, k, dims):
+    """(1) the same operation with scalars that compare equal but are different static arguments (2 / 2.0 / True);
+    (2) criteria that name a SCALAR coordinate (matched: `_validate_criteria` drops the criterion and, with nothing left, the
+        action itself is handed back; unmatched: refused), followed by operations on what was handed back;
+    (3) set / frozenset statics (positional, keyword, nested), the same set written in two orders, different sets"""
+    from ekw import c13_fluent as F
+    r = rng.random()
+    if r < 0.22:
+        vals = list(rng.choice(_EQUAL_SCALARS))
+        rng.shuffle(vals)
+        fn = rng.choice(["add", "subtract", "multiply", "divide", "pow"])
+        for v in vals[:rng.randint(2, 3)]:
+            g.push({"op": "arith", "a": k, "fn": fn, "scalar": v})
+    elif r < 0.32:
+        vals = list(rng.choice(_EQUAL_SCALARS))
+        rng.shuffle(vals)
+        for v in vals[:2]:
+            g.push({"op": "map", "a": k, "fn": "affine", "k": v})
+    elif r < 0.44:
+        a, b = rng.choice([({"int": 2}, {"float": 2.0}), ({"int": 1}, {"bool": True}), ({"float": 1.0}, {"bool": True}),
+                           ({"mixed": [["i", 1], ["f", 2.0]]}, {"mixed": [["f", 1.0], ["i", 2]]}),
+                           ({"tuple": [["i", 1], ["b", 1]]}, {"mixed": [["i", 1], ["b", 1]]}),
+                           ({"tuple": [["i", 1]]}, {"int": 1}), ({"mixed": [["n", 0], ["s", "None"]]}, {"mixed": [["s", "None"], ["n", 0]]})])
+        g.push({"op": "map", "a": k, "fn": "keep", "static": a})
+        g.push({"op": "map", "a": k, "fn": "keep", "static": b})
+    elif r < 0.72:
+        # criteria on scalar coordinates
+        big = [(d, l) for d, l in dims if l and F.OPAQUE not in l and all(isinstance(x, (int, str)) for x in l)]
+        scal = _scalar_coords(g, k)
+        x = k
+        if not scal and big:
+            d, lab = rng.choice(big)
+            if rng.random() < 0.7:
+                x = g.push({"op": "select", "a": k, "dim": d, "val": rng.choice(lab), "drop": False})
+            else:
+                x = g.push({"op": "iselect", "a": k, "dim": d, "val": rng.randrange(len(lab)), "drop": False})
+            if not _ok(g, x):
+                return
+            scal = _scalar_coords(g, x)
+        if not scal:
+            return
+        c, v = rng.choice(scal)
+        how = rng.choice(["select", "select", "iselect"])
+        y = g.push({"op": how, "a": x, "dim": c, "val": v, "drop": rng.random() < 0.5})      # matched: the action itself comes back
+        if rng.random() < 0.5:
+            g.push({"op": how, "a": x, "dim": c, "val": 12345 if not isinstance(v, str) else "nope", "drop": False})   # refused
+        if _ok(g, y):
+            t = rng.random()
+            if t < 0.3:
+                g.push({"op": "map", "a": y, "fn": "neg"})
+            elif t < 0.5:
+                g.push({"op": "transform", "a": y, "func": "ident", "params": [0] * rng.randint(1, 2), "dim": g.name("t"), "axis": 0})
+            elif t < 0.75:
+                j = g.partner(x, relabel=False, permute=False) if _plain(g, x) else None
+                if j is not None:
+                    g.push({"op": rng.choice(["join", "arith"]), "a": x, "b": j, "dim": g.name("j"), "match": True, "fn": "add"})
+            else:
+                g.push({"op": how, "a": x, "dim": c, "val": v, "drop": True})     # once more on the same receiver
+    else:
+        pool = rng.sample(_SET_POOL, rng.randint(3, 8))
+        other = list(pool)
+        rng.shuffle(other)
+        kind = rng.choice(["set", "set", "frozenset", "kwset", "nestedset"])
+        t = rng.random()
+        if t < 0.4:
+            b = {kind: other}                              # the same set, written in another order: the same computation
+        elif t < 0.7:
+            b = {kind: other[:-1] + [rng.choice([p for p in _SET_POOL if p not in pool] or ["x"])]}   # another set
+        elif t < 0.85:
+            b = {"nested": [sorted(pool)]} if kind == "set" else {"set" if kind != "set" else "frozenset": pool}   # list / other kind, same elements
+        else:
+            b = {kind: [len(p) for p in pool]}              # small ints: their iteration order does not depend on the hash seed
+        g.push({"op": "map", "a": k, "fn": "keep", "static": {kind: pool}})
+        g.push({"op": "map", "a": k, "fn": "keep", "static": b})
+
+
+def _scalar_coords(g, k):
+    from ekw import c13_fluent as F
+    try:
+        n = g.env[k].nodes
+        out = [(str(c), F._canon_label(v.data.item())) for c, v in n.coords.items() if c not in n.dims and v.data.shape == ()]
+        return [(c, v) for c, v in out if v != F.OPAQUE and isinstance(v, (int, str))]
+    except Exception:
+        return []
 
 
 def _more_extras(g, rng, k, dims):
@@ -275,6 +406,8 @@ def _pyval(x):
         return {"t": [_pyval(y) for y in x]}
     if isinstance(x, dict) and all(isinstance(k, str) for k in x):
         return {"d": [[k, _pyval(v)] for k, v in x.items()]}
+    if type(x) in (set, frozenset):
+        return {"s" if type(x) is set else "fs": [_pyval(y) for y in x]}     # in the order THIS interpreter iterates them
     raise TypeError(f"unsupported static {type(x).__name__}")
 
 
@@ -324,21 +457,51 @@ def source_items(action):
 
 
 def snapshot(action):
+    """what an existing action holds: dimensions, shape, coordinates (names in their order, dimensions, values WITH their
+    types and the dtype of the array, attributes), indexes, attributes and dtype of the node array, node objects by identity"""
     n = action.nodes
     return {"dims": [str(d) for d in n.dims], "shape": list(n.shape),
             "coords": sorted((str(k), [str(d) for d in v.dims], repr(v.data.tolist())) for k, v in n.coords.items()),
-            "nodes": [id(x) for x in (n.data.flat if n.data.shape else [n.data.item()])]}
+            "nodes": [id(x) for x in (n.data.flat if n.data.shape else [n.data.item()])],
+            "coord_order": [str(k) for k in n.coords],
+            "coord_types": sorted((str(k), str(v.dtype), _type_tree(v.data.tolist()), _attrs(v.attrs)) for k, v in n.coords.items()),
+            "indexes": sorted((str(k), type(ix).__name__) for k, ix in n.indexes.items()),
+            "attrs": _attrs(n.attrs), "dtype": str(n.dtype), "name": repr(n.name)}
 
 
-def _static_key(x):
-    """statics compared by value where Python can, by identity otherwise; never raises"""
+SNAP_KEYS = ("dims", "shape", "coords", "nodes", "coord_order", "coord_types", "indexes", "attrs", "dtype", "name")
+
+
+def _type_tree(x):
+    if isinstance(x, list):
+        return "[" + ",".join(sorted({_type_tree(y) for y in x})) + "]"
+    return type(x).__name__
+
+
+def _attrs(attrs):
+    try:
+        return repr(sorted((str(k), repr(v)) for k, v in attrs.items()))
+    except Exception as e:
+        return "attrs:" + type(e).__name__
+
+
+def _static_key(x, loose=False):
+    """statics compared by value where Python can, by identity otherwise; never raises. Values of different types are
+    different statics (2, 2.0 and True are three static arguments: `x ** 2` and `x ** 2.0` differ in dtype); `loose` = as
+    Python's `==` sees numbers (2 == 2.0, True == 1), used only to NAME the mechanism of a failure"""
     import numpy as np
     if isinstance(x, np.ndarray):
         return ("ndarray", x.shape, str(x.dtype), hashlib.sha1(np.ascontiguousarray(x).tobytes()).hexdigest())
     if isinstance(x, (list, tuple)):
-        return (type(x).__name__, tuple(_static_key(y) for y in x))
+        return (type(x).__name__, tuple(_static_key(y, loose) for y in x))
     if isinstance(x, dict):
-        return ("dict", tuple(sorted((repr(k), _static_key(v)) for k, v in x.items())))    # dict equality ignores the order
+        return ("dict", tuple(sorted((repr(k), _static_key(v, loose)) for k, v in x.items())))    # dict equality ignores the order
+    if isinstance(x, (set, frozenset)):
+        return ("set" if loose else type(x).__name__, frozenset(_static_key(y, loose) for y in x))     # by value: the iteration order is not part of a set
+    if isinstance(x, float) and x != x:
+        return ("float", "nan")
+    if loose and isinstance(x, (bool, int, float)):
+        return ("number", x)        # hash(2) == hash(2.0) and 2 == 2.0: one key
     if isinstance(x, (bool, int, float, str, type(None))):
         return (type(x).__name__, x)
     if type(x).__eq__ is object.__eq__:
@@ -420,12 +583,27 @@ def cell_of(action, ids):
 def _heap_kind(st, live):
     """the statements that are replayed on the heap model: the ones whose code path writes to `.nodes` in place or hands
     back an existing object"""
+    if "reg" in st:
+        # a.<registered name>.<method>(…) casts the receiver to the registered class and the result back: the result is always a
+        # NEW object (also where the method hands back `self`) — outside the heap model; judged by the snapshots only
+        return None
     if st["op"] == "transform" and st.get("func") in ("lookup", "ident"):
         if st["func"] == "ident" or all(t in live for t in st["r"]):
             return "lookup" if st["func"] == "lookup" else "self"
         return None
     if st["op"] == "alias":
         return "alias"
+    if st["op"] in ("select", "iselect") and "val" in st and st["a"] in live and "reg" not in st:
+        # ONE criterion that names a scalar coordinate: `_validate_criteria` drops it when it matches; with nothing left the
+        # action itself is handed back
+        n = live[st["a"]].nodes
+        if st["dim"] not in n.dims and st["dim"] in n.coords and n.coords[st["dim"]].data.shape == () \
+                and isinstance(st["val"], (int, str)) and not isinstance(st["val"], bool):
+            return "alias"
+    if st["op"] == "join" and st["a"] in live and st.get("b") in live and "reg" not in st:
+        return "join"
+    if st["op"] == "arith" and st["a"] in live and st.get("b") in live and "reg" not in st:
+        return "arith"
     if st["op"] in ("stack", "concatenate") and st["a"] in live:
         n = live[st["a"]].nodes
         if st["dim"] in n.dims and n.sizes[st["dim"]] == 1:
@@ -473,12 +651,18 @@ def oracle_program(prog, heapops=None, union=True, probe_default=False, vias=("f
                         rec.update({"targets": [cell_index[t] for t in table], "dim": st["dim"], "axis": st["axis"]})
                     elif heapkind == "combine":
                         rec.update({"method": "stack" if st["op"] == "stack" else "concat", "d": st["dim"], "keep": st["keep"]})
+                    elif heapkind == "join":
+                        rec.update({"b": cell_index[st["b"]], "dim": st["dim"], "match": bool(st["match"])})
+                    elif heapkind == "arith":
+                        rec.update({"b": cell_index[st["b"]], "fn": st["fn"]})
+                    elif heapkind == "alias" and st["op"] != "alias":
+                        rec.update({"crit": [st["dim"], st["val"]], "drop": bool(st.get("drop"))})
                     pending.update({"order": order, "rec": rec})
         else:
             for i, a in live.items():
                 now = snapshot(a)
                 if i in snaps and now != snaps[i]:
-                    what = [key for key in ("dims", "shape", "coords", "nodes") if now[key] != snaps[i][key]]
+                    what = [key for key in SNAP_KEYS if now[key] != snaps[i][key]]
                     role = "operand" if i in F.operands(st) else "bystander"
                     viol.append(({"kind": "operand-mutated", "op": st["op"], "changed": what[0]},
                                  f"statement {k} {st} changed {what} of existing action v{i} ({role}): {snaps[i]['dims']} {snaps[i]['coords']} -> {now['dims']} {now['coords']}",
@@ -502,6 +686,8 @@ def oracle_program(prog, heapops=None, union=True, probe_default=False, vias=("f
                 else:
                     after = [cell_of(live[i], ids) for i in pending["order"]]
                     res = cell_of(r, ids)
+                    if res is not None and rec["kind"] == "arith":
+                        res["nodes"] = [0] * len(res["nodes"])      # new node objects: the model reports 0 for them
                     alias = next((n_ for n_, i in enumerate(pending["order"]) if live[i] is r), None)
                     real = None if (res is None or any(c is None for c in after)) else {"heap": after, "result": res, "alias_of": alias}
                 if real is not None:
@@ -518,12 +704,20 @@ def oracle_program(prog, heapops=None, union=True, probe_default=False, vias=("f
         n1 = _names(r1)
         n2 = _names(r2)
         if n1 != n2:
+            # per NODE: the nodes where the difference starts (all inputs carry equal names in both builds, the node does not)
+            # must each have a static argument rendered with its address; any other root is not explained by that finding
+            roots = _divergence_roots(r1, r2)
+            unexplained = [(a_, b_) for a_, b_ in roots if not _address_in_own_statics(a_)]
             sig = {"kind": "not-deterministic", "what": "names"}
-            cause = _address_static(r1)
-            if cause:
+            cause = None
+            if roots and not unexplained:
                 sig["cause"] = "address-in-repr"
+                cause = _address_in_own_statics(roots[0][0])
+            where = ""
+            if unexplained:
+                where = f"; the difference starts at node {_describe(unexplained[0][0])} whose inputs have equal names in both builds"
             viol.append((sig, f"statement {k} {prog['stmts'][k]}: two builds of the same program in one process give different node names "
-                              f"({_first_diff(n1, n2)})" + (f"; a static argument is rendered with its address: {cause}" if cause else ""), [k]))
+                              f"({_first_diff(n1, n2)})" + (f"; a static argument is rendered with its address: {cause}" if cause else where), [k]))
     # (b) union over shared sources: same name => same computation
     actions = [r for r in env if not isinstance(r, tuple)]
     nodes = collect_nodes(actions)
@@ -534,7 +728,7 @@ def oracle_program(prog, heapops=None, union=True, probe_default=False, vias=("f
             viol += union_oracle(prog, env2, probe_default, vias)
         except Exception as e:     # an exception of the union machinery is a result, not a crash of the check
             sig = {"kind": "union-raises", "error": F.err_class(e)}
-            if isinstance(e, ValueError) and "truth value of an array" in str(e):
+            if _array_eq_error(e, [r for r in env2 if not isinstance(r, tuple)]):
                 sig["cause"] = "ndarray-static-compared-with-=="
             viol.append((sig, f"taking the union of the actions of the program raised {type(e).__name__}: {str(e)[:120]}", list(range(len(prog["stmts"])))))
     prog["_srcinfo"] = srcinfo
@@ -542,37 +736,90 @@ def oracle_program(prog, heapops=None, union=True, probe_default=False, vias=("f
 
 
 def _collisions(nodes, stmt_of, where):
-    """two nodes of one graph carry the same name only if they denote the same computation"""
+    """two nodes of one graph carry the same name only if they denote the same computation; every pair of a name group is
+    compared, one report per (name, cause)"""
     out = []
     by_name = {}
     for n in nodes:
         by_name.setdefault(n.name, []).append(n)
     for name, group in by_name.items():
-        first = group[0]
-        for other in group[1:]:
-            cause = _differs(first, other)
-            if cause:
-                sig = {"kind": "name-collision", "cause": cause}
-                if where:
-                    sig["where"] = where
-                out.append((sig, f"two nodes named {name[:24]}… {('of the ' + where + ' ') if where else ''}denote different computations ({cause}): "
-                                 f"{_describe(first)} vs {_describe(other)}", [stmt_of(first), stmt_of(other)]))
-                break
+        seen = set()
+        for i, first in enumerate(group[:16]):
+            for other in group[i + 1:16]:
+                cause = _differs(first, other)
+                if cause and cause not in seen:
+                    seen.add(cause)
+                    sig = {"kind": "name-collision", "cause": cause}
+                    if where:
+                        sig["where"] = where
+                    out.append((sig, f"two nodes named {name[:24]}… {('of the ' + where + ' ') if where else ''}denote different computations ({cause}): "
+                                     f"{_describe(first)} vs {_describe(other)}", [stmt_of(first), stmt_of(other)]))
     return out
 
 
-def _address_static(action):
-    """a static argument of a node of the action whose repr shows a memory address, or None"""
+def _address_in_own_statics(n):
+    """a static argument of THIS node whose repr shows a memory address, or None"""
     import re
-    for n in collect_nodes([action]):
-        for v in list(n.payload[1]) + list(n.payload[2].values()):
-            try:
-                r = repr(v)
-            except Exception:
-                continue
-            if re.search(r" at 0x[0-9a-fA-F]+>", r):
-                return r[:60]
+    for v in list(n.payload[1]) + list(n.payload[2].values()):
+        try:
+            r = repr(v)
+        except Exception:
+            continue
+        if re.search(r" at 0x[0-9a-fA-F]+>", r):
+            return r[:60]
     return None
+
+
+def _address_static(action, positions=None):
+    """a static argument rendered with its memory address among the nodes the names at `positions` (all positions when None)
+    of the action are computed from, or None"""
+    from earthkit.workflows.graph import Output
+    data = action.nodes.data
+    flat = list(data.flat) if data.shape else [data.item()]
+    if positions is not None:
+        flat = [flat[i] for i in positions if i < len(flat)]
+    seen, stack = set(), [x.parent if isinstance(x, Output) else x for x in flat]
+    while stack:
+        n = stack.pop()
+        if id(n) in seen:
+            continue
+        seen.add(id(n))
+        r = _address_in_own_statics(n)
+        if r:
+            return r
+        stack.extend(o.parent for o in n.inputs.values())
+    return None
+
+
+def _divergence_roots(a1, a2):
+    """two builds of one statement, walked in parallel (position by position, then parameter by parameter): the pairs of
+    corresponding nodes whose names differ although all their inputs carry equal names (or whose shape differs)"""
+    from earthkit.workflows.graph import Output
+    roots, seen = [], set()
+
+    def walk(x, y):
+        x = x.parent if isinstance(x, Output) else x
+        y = y.parent if isinstance(y, Output) else y
+        if (id(x), id(y)) in seen or x.name == y.name:
+            return
+        seen.add((id(x), id(y)))
+        below = False
+        if sorted(x.inputs) == sorted(y.inputs):
+            for key in x.inputs:
+                ox, oy = x.inputs[key], y.inputs[key]
+                if ox.parent.name != oy.parent.name or ox.name != oy.name:
+                    below = True
+                    walk(ox.parent, oy.parent)
+        if not below:
+            roots.append((x, y))
+    d1, d2 = a1.nodes.data, a2.nodes.data
+    f1 = list(d1.flat) if d1.shape else [d1.item()]
+    f2 = list(d2.flat) if d2.shape else [d2.item()]
+    if len(f1) != len(f2):
+        return []
+    for x, y in zip(f1, f2):
+        walk(x, y)
+    return roots
 
 
 def _graph_nodes(cascade):
@@ -600,12 +847,33 @@ def union_oracle(prog, envB, probe_default=False, vias=("from_actions", "add", "
     envC = F.run_real(prog)
     actsB = [r for r in envB if not isinstance(r, tuple)]
     actsC = [r for r in envC if not isinstance(r, tuple)]
-    if not actsB or len(actsB) != len(actsC):
+    okB = [k for k, r in enumerate(envB) if not isinstance(r, tuple)]
+    okC = [k for k, r in enumerate(envC) if not isinstance(r, tuple)]
+    if okB != okC:
+        k = next(iter(sorted(set(okB) ^ set(okC))), 0)
+        out.append(({"kind": "not-deterministic", "what": "outcome"},
+                     f"statement {k} succeeded in one build and failed in another build of the same program (second / third build)", [k]))
+        return out
+    if not actsB:
         return out
     stmt_of = lambda n: _first_stmt_with(envB, n)   # noqa: E731
+    try:
+        one = Cascade.from_actions(actsB)
+    except ValueError as e:
+        if not _array_eq_error(e, actsB):
+            raise
+        # the one known way in which a union raises (payloads with ndarray statics compared with `==`): reported with its cause,
+        # and U1–U4 go on over the actions that have no array static (they used to be skipped for the whole program)
+        out.append(({"kind": "union-raises", "error": F.err_class(e), "cause": "ndarray-static-compared-with-=="},
+                     f"taking the union of the actions of the program raised {type(e).__name__}: {str(e)[:120]}", every))
+        keep = [i for i, a_ in enumerate(actsB) if not _has_array_static(a_)]
+        actsB, actsC = [actsB[i] for i in keep], [actsC[i] for i in keep]
+        prog.setdefault("_notes", []).append("union_oracle_continued_without_array_statics")
+        if not actsB:
+            return out
+        one = Cascade.from_actions(actsB)
     before = contents_of(actsB + actsC)
     comp = _comp_keys(collect_nodes(actsB + actsC))
-    one = Cascade.from_actions(actsB)
     nodes1 = _graph_nodes(one)
     bag1 = _name_bag(nodes1)
     coll = _collisions(nodes1, stmt_of, "cascade-union")
@@ -617,8 +885,17 @@ def union_oracle(prog, envB, probe_default=False, vias=("from_actions", "add", "
     # what the program denotes, computed by the harness: one node per distinct (callable, statics, inputs, outputs)
     want = len({comp[id(n)] for n in collect_nodes(actsB)})
     if not dup and len(bag1) != want:
-        out.append(({"kind": "union-not-deduplicated", "via": "from_actions", "what": "count"},
-                     f"Cascade.from_actions holds {len(bag1)} nodes, the actions denote {want} different computations", every))
+        sig = {"kind": "union-not-deduplicated", "via": "from_actions", "what": "count"}
+        why = ""
+        if len(bag1) < want:
+            # fewer nodes than computations: the one known way is `same_payload`'s `==`, for which 2, 2.0 and True (1) are equal —
+            # named as the cause only when counting with that equality gives exactly the number of nodes held
+            loose = _comp_keys(collect_nodes(actsB), loose=True)
+            if len({loose[id(n)] for n in collect_nodes(actsB)}) == len(bag1):
+                sig["cause"] = "statics-equal-under-==-of-different-type"
+                pair = _loose_pair(collect_nodes(actsB), comp, loose)
+                why = f": deduplicate_nodes compares payloads with `==` and merged {pair}" if pair else ""
+        out.append((sig, f"Cascade.from_actions holds {len(bag1)} nodes, the actions denote {want} different computations{why}", every))
     if not dup:
         try:
             ser = serialise(one._graph)
@@ -634,10 +911,25 @@ def union_oracle(prog, envB, probe_default=False, vias=("from_actions", "add", "
                 out.append(({"kind": "union-not-lowerable", "what": "edges"}, f"graph2job(union): {len(loose)} edges name tasks that do not exist", every))
         except AssertionError as e:
             out.append(({"kind": "union-not-lowerable", "what": "raises"}, f"lowering the uniquely named union raised AssertionError({str(e)[:80]})", every))
-        except Exception:
-            pass     # a static argument the lowering does not accept: not a matter of names (C10)
+        except Exception as e:
+            # out of scope only for a stated reason: a static argument of a type the lowering does not take (C10's matter, not one
+            # of names) — the program must contain such a static and the error must name the type; anything else is reported
+            reason = _lowering_out_of_scope(nodes1, e)
+            if reason:
+                prog.setdefault("_notes", []).append("lowering-out-of-scope:" + reason)
+            else:
+                out.append(({"kind": "union-not-lowerable", "what": "raises", "error": F.err_class(e)},
+                             f"lowering the uniquely named union raised {type(e).__name__}({str(e)[:100]})", every))
     # U2/U3: unions with a second build of the same program
     same_names = _name_bag(collect_nodes(actsB)) == _name_bag(collect_nodes(actsC))
+    if not same_names:
+        # the second and third build of the program differ in their names: clause (a) reports it (with its cause) from the first
+        # two builds; U2 has no meaning then — counted, not silent
+        prog.setdefault("_notes", []).append("union_U2_skipped_builds_differ_in_names")
+        if not any(_address_static(a_) for a_ in actsB):
+            out.append(({"kind": "not-deterministic", "what": "names"},
+                         "the second and third build of the same program in one process give different node names "
+                         f"({_first_diff(_name_bag(collect_nodes(actsB)), _name_bag(collect_nodes(actsC)))}) and no static argument is rendered with its address", every))
     earlier = None
     for via in vias if same_names else ():
         if via == "from_actions":
@@ -649,8 +941,20 @@ def union_oracle(prog, envB, probe_default=False, vias=("from_actions", "add", "
             two += Cascade.from_actions(actsC)
         bag2 = _name_bag(_graph_nodes(two))
         if bag2 != bag1:
-            out.append(({"kind": "union-not-deduplicated", "via": via},
-                         f"the union ({via}) of two builds of the same program holds {len(bag2)} nodes ({len(set(bag2))} names), one build holds {len(bag1)}", every))
+            sig = {"kind": "union-not-deduplicated", "via": via}
+            why = ""
+            # the known way: nodes that `==` merges although their names differ (2 / 2.0) — WHICH of them survives depends on the
+            # order in which the union meets them, so two unions of the same computations may keep differently named survivors.
+            # Named as the cause only when the two unions hold the same computations once names are read modulo that equality
+            loose = _comp_keys(collect_nodes(actsB + actsC), loose=True)
+            of_name = {}
+            for n_ in collect_nodes(actsB + actsC):
+                of_name.setdefault(n_.name, set()).add(loose[id(n_)])
+            canon = lambda bag: sorted(tuple(sorted(of_name.get(x, {x}), key=str)) for x in bag)   # noqa: E731
+            if canon(bag2) == canon(bag1) and len(set(loose.values())) < len({comp[k_] for k_ in loose}):
+                sig["cause"] = "statics-equal-under-==-of-different-type"
+                why = " — the same computations once 2 and 2.0 (True and 1) are identified as `==` does: the survivor of such a merge differs between the unions"
+            out.append((sig, f"the union ({via}) of two builds of the same program holds {len(bag2)} nodes ({len(set(bag2))} names), one build holds {len(bag1)}{why}", every))
         again = _name_bag(_graph_nodes(one))
         if again != bag1 and earlier is None:
             earlier = (via, again)
@@ -688,14 +992,64 @@ def union_oracle(prog, envB, probe_default=False, vias=("from_actions", "add", "
     return out
 
 
-def _comp_keys(nodes):
+def _array_eq_error(e, actions):
+    """`same_payload`'s `==` met an ndarray static: NumPy compares element-wise and either the truth value of the result is
+    ambiguous (array vs array) or the shapes do not broadcast (array vs list / set of another length). Only when an action of
+    the program really has an array static"""
+    if not isinstance(e, ValueError):
+        return False
+    text = str(e)
+    if "truth value of an array" not in text and "could not be broadcast together" not in text:
+        return False
+    return any(_has_array_static(a_) for a_ in actions)
+
+
+def _has_array_static(action):
+    import numpy as np
+    return any(isinstance(v, np.ndarray) for n in collect_nodes([action]) for v in list(n.payload[1]) + list(n.payload[2].values()))
+
+
+def _loose_pair(nodes, strict, loose):
+    seen = {}
+    for n in nodes:
+        m = seen.setdefault(loose[id(n)], n)
+        if strict[id(m)] != strict[id(n)]:
+            return f"{_describe(m)} and {_describe(n)}"
+    return None
+
+
+def _lowering_out_of_scope(nodes, e):
+    """the stated reason why an exception of serialise / graph2job is not a matter of names, or None"""
+    text = f"{type(e).__name__}: {e}"
+    kinds = set()
+    for n in nodes:
+        for v in list(n.payload[1]) + list(n.payload[2].values()):
+            kinds |= _static_types(v)
+    for t in sorted(kinds - {"int", "float", "str", "bool", "NoneType", "list", "tuple", "dict"}):
+        if t in text:
+            return t
+    return None
+
+
+def _static_types(v):
+    out = {type(v).__name__}
+    if isinstance(v, (list, tuple, set, frozenset)):
+        for y in v:
+            out |= _static_types(y)
+    elif isinstance(v, dict):
+        for y in v.values():
+            out |= _static_types(y)
+    return out
+
+
+def _comp_keys(nodes, loose=False):
     """identity of the computation each node denotes (callable object, statics by value, computations of the inputs per
     parameter, outputs) — independent of names; `nodes` lists inputs before users"""
     keys = {}
     for n in nodes:
         func, args, kwargs = n.payload
         ins = tuple(sorted((k, keys[id(o.parent)], o.name) for k, o in n.inputs.items()))
-        keys[id(n)] = hash((id(func), tuple(_static_key(a) for a in args), tuple(sorted((k, _static_key(v)) for k, v in kwargs.items())),
+        keys[id(n)] = hash((id(func), tuple(_static_key(a, loose) for a in args), tuple(sorted((k, _static_key(v, loose)) for k, v in kwargs.items())),
                             ins, tuple(n.outputs)))
     return keys
 
@@ -726,10 +1080,12 @@ def _describe(n):
 
 
 def _differs(n1, n2):
+    """why two nodes of equal name are different computations (None: they are the same). Statics, inputs and outputs are
+    compared FIRST: `equal-__name__` (the known finding) is the answer only when the callables are the one and only
+    difference; two different callables that ALSO differ in statics / inputs / outputs are a different matter"""
     f1, a1, k1 = n1.payload
     f2, a2, k2 = n2.payload
-    if f1 is not f2:
-        return "equal-__name__" if getattr(f1, "__name__", "") == getattr(f2, "__name__", "") else "different-callables"
+    rest = None
     s1 = (tuple(_static_key(a) for a in a1), tuple(sorted((k, _static_key(v)) for k, v in k1.items())))
     s2 = (tuple(_static_key(a) for a in a2), tuple(sorted((k, _static_key(v)) for k, v in k2.items())))
     if s1 != s2:
@@ -738,15 +1094,21 @@ def _differs(n1, n2):
             same_repr = (repr(list(a1)), repr(dict(k1))) == (repr(list(a2)), repr(dict(k2)))
         except Exception:
             same_repr = False
-        return "statics-equal-repr" if same_repr else "statics"
-    # which input feeds which parameter (the order of the operands is part of the computation)
-    i1 = sorted((k, o.parent.name, o.name) for k, o in n1.inputs.items())
-    i2 = sorted((k, o.parent.name, o.name) for k, o in n2.inputs.items())
-    if i1 != i2:
-        return "inputs"
-    if n1.outputs != n2.outputs:
-        return "outputs"
-    return None
+        rest = "statics-equal-repr" if same_repr else "statics"
+    else:
+        # which input feeds which parameter (the order of the operands is part of the computation)
+        i1 = sorted((k, o.parent.name, o.name) for k, o in n1.inputs.items())
+        i2 = sorted((k, o.parent.name, o.name) for k, o in n2.inputs.items())
+        if i1 != i2:
+            rest = "inputs"
+        elif n1.outputs != n2.outputs:
+            rest = "outputs"
+    if f1 is not f2:
+        same_name = getattr(f1, "__name__", "") == getattr(f2, "__name__", "")
+        if rest is None:
+            return "equal-__name__" if same_name else "different-callables"
+        return ("callables+" if same_name else "different-callables+") + rest
+    return rest
 
 
 def _first_stmt_with(env, node):
@@ -794,11 +1156,13 @@ def model_names(progs, envs, heaps=None):
                 stats["heapops_out_of_scope"] += 1
                 continue
             stats["heapops"] += 1
+            kind_ = "heapop:" + rec["kind"] + ("_scalar_criterion" if "crit" in rec else "") + ("_match" if rec.get("match") else "")
+            stats[kind_] = stats.get(kind_, 0) + 1
             mo = {key: mo[key] for key in ("err", "heap", "result", "alias_of") if key in mo}
             if "err" in real:
                 stats["heapops_err"] += 1
             if mo != real:
-                bad.append((prog, "transform-heap", {"statement": k, "stmt": prog["stmts"][k], "heap_before": rec["heap"]}, mo, real))
+                bad.append((prog, "heap:" + rec["kind"], {"statement": k, "stmt": prog["stmts"][k], "heap_before": rec["heap"]}, mo, real))
                 break
         if len(hops) != len(m.get("heapops", [])):
             bad.append((prog, "transform-heap", {"heapops": len(hops)}, len(m.get("heapops", [])), len(hops)))
@@ -822,6 +1186,7 @@ def _witnesses():
     S = {"op": "source", "dims": [["d0", [0, 10]]], "base": 0}
     S1 = {"op": "source", "dims": [["d0", [7]], ["d1", [0, 10]]], "base": 0}
     T = {"op": "source", "dims": [["d0", [0, 10]]], "base": 2}
+    S2 = {"op": "source", "dims": [["d0", [0, 10]], ["d1", [5, 6]]], "base": 0}
     return [
         # the known finding: two lambdas over the same inputs
         {"stmts": [S, {"op": "map", "a": 0, "fn": "lam1"}, {"op": "map", "a": 0, "fn": "lam2"}], "internal": [], "vseed": 0, "float": False},
@@ -852,6 +1217,21 @@ def _witnesses():
          "internal": [], "vseed": 0, "float": False},
         # one Payload object passed to several operations
         {"stmts": [S, {"op": "map", "a": 0, "fn": "first", "share": 1}, {"op": "reduce", "a": 0, "fn": "first", "dim": "d0", "bs": 0, "keep": False, "share": 1}],
+         "internal": [], "vseed": 0, "float": False},
+        # second audit: scalars that compare equal are different static arguments (2 / 2.0, 1 / True): four names, four computations
+        {"stmts": [S, {"op": "arith", "a": 0, "fn": "pow", "scalar": 2}, {"op": "arith", "a": 0, "fn": "pow", "scalar": 2.0},
+                   {"op": "arith", "a": 0, "fn": "add", "scalar": 1}, {"op": "arith", "a": 0, "fn": "add", "scalar": True},
+                   {"op": "map", "a": 0, "fn": "keep", "static": {"int": 2}}, {"op": "map", "a": 0, "fn": "keep", "static": {"float": 2.0}}],
+         "internal": [], "vseed": 0, "float": False},
+        # a criterion that names a SCALAR coordinate: matched (the action itself comes back, nothing of it may change), used again, refused
+        {"stmts": [S2, {"op": "select", "a": 0, "dim": "d1", "val": 5, "drop": False}, {"op": "select", "a": 1, "dim": "d1", "val": 5, "drop": False},
+                   {"op": "map", "a": 2, "fn": "neg"}, {"op": "select", "a": 1, "dim": "d1", "val": 6, "drop": False},
+                   {"op": "iselect", "a": 1, "dim": "d1", "val": 5, "drop": True}, {"op": "arith", "a": 1, "fn": "add", "b": 2}],
+         "internal": [], "vseed": 0, "float": False},
+        # unordered statics: the name must not depend on the iteration order of a set (another string-hash seed in the fresh interpreter)
+        {"stmts": [S, {"op": "map", "a": 0, "fn": "keep", "static": {"kwset": _SET_POOL[:8]}}, {"op": "map", "a": 0, "fn": "keep", "static": {"set": _SET_POOL[:8]}},
+                   {"op": "map", "a": 0, "fn": "keep", "static": {"frozenset": _SET_POOL[2:9]}}, {"op": "map", "a": 0, "fn": "keep", "static": {"nestedset": _SET_POOL[:6]}},
+                   {"op": "map", "a": 0, "fn": "keep", "static": {"set": list(reversed(_SET_POOL[:8]))}}],
          "internal": [], "vseed": 0, "float": False},
         # operations that hand back the action itself, then an in-place candidate on the alias
         {"stmts": [S, {"op": "alias", "a": 0, "how": "select"}, {"op": "transform", "a": 1, "func": "ident", "params": [0], "dim": "t", "axis": 0}], "internal": [], "vseed": 0, "float": False},
@@ -926,8 +1306,12 @@ def _judge_fresh(prog, res, here, env=None):
     a, b = (col[0], col[1]) if col[0] != col[1] else (col[0], col[-1])
     d = _first_diff(a, b) if isinstance(a, list) and isinstance(b, list) else f"{a} vs {b}"
     cause = None
-    if env is not None and k < len(env) and not isinstance(env[k], tuple):
-        cause = _address_static(env[k])
+    if env is not None and k < len(env) and not isinstance(env[k], tuple) and isinstance(a, list) and isinstance(b, list) and len(a) == len(b):
+        # the finding explains a difference only where the differing names are computed from a static rendered with its address:
+        # EVERY differing position must have one among the nodes it is computed from
+        pos = [i for i, (x, y) in enumerate(zip(a, b)) if x != y]
+        if pos and all(_address_static(env[k], [i]) for i in pos):
+            cause = _address_static(env[k], pos[:1])
     return (k, f"statement {k} {st}: building the same program again gives different node names — {which} disagree ({d})"
             + (f"; a static argument is rendered with its address: {cause}" if cause else ""), cause)
 
@@ -963,9 +1347,12 @@ def correspond(ctx):
             # deduplicate_nodes is quadratic: the witnesses take all three kinds of union, the others one each in turn
             vias = ("from_actions", "add", "iadd") if pi < nw else (("from_actions", "add", "iadd")[pi % 3],)
             env, viol = oracle_program(p, hops, probe_default=pi < nw, vias=vias)
-        except Exception as e:   # the oracle itself must not crash the check
-            ctx.notes.append(f"oracle error {type(e).__name__}: {str(e)[:100]}")
+        except Exception as e:   # the oracle itself must not crash the check — but a program it cannot judge is a failure of the harness
+            ctx.count("oracle_crashed")
+            ctx.disagree("oracle-crash", {"stmts": p["stmts"][:10]}, "the oracle judges the program", f"{type(e).__name__}: {str(e)[:160]}")
             env, viol, hops = F.run_real(p), [], []
+        for note in p.pop("_notes", []):
+            ctx.count(note)
         ctx.count("results_that_are_an_existing_action_object", len(p.get("_aliases", [])))
         envs.append(env)
         heaps.append(hops)
@@ -974,6 +1361,8 @@ def correspond(ctx):
         ctx.case({"stmts": p["stmts"][:8]}, nontrivial=nontrivial)
         ctx.count("depth:%d" % _depth(p))
         ctx.count("programs")
+        if p.get("ext"):
+            ctx.count("programs_ext_vocabulary")
         _count_features(ctx, p, env)
         for sig, text, roots in viol:
             key = json.dumps(sig, sort_keys=True)
@@ -1018,24 +1407,40 @@ def correspond(ctx):
             if key in reported:
                 continue
             reported.add(key)
-            small = _shrink(p, [k], sig, failing=lambda q: _fresh_differs(q) is not None)
+            small = _shrink(p, [k], sig, failing=lambda q: _fresh_differs(q, X.names_of_env(F.run_real(q))) is not None)
             ctx.violation(sig, {"prog": small, "fresh": True}, text)
 
 
 def _observe_criteria_dict(ctx):
-    """not part of the property (a criteria dict is not an action): `select` empties the dict its caller passed when the
-    criterion names a scalar coordinate (`crit = criteria or {}` … `criteria.pop(key)`); recorded as an observation"""
+    """a directed case outside the generator's statement language: the criteria are passed as ONE dict object that the caller
+    keeps. Part of the property: the receiver (snapshot before / after, as for every statement) must not change. Not part of the
+    property (a criteria dict is not an action): `select` empties the dict its caller passed when the criterion names a scalar
+    coordinate (`crit = criteria or {}` … `criteria.pop(key)`); recorded as an observation"""
+    from ekw import c13_fluent as F
+    prog = {"stmts": [{"op": "source", "dims": [["d0", [0, 10]], ["d1", [5, 6]]], "base": 0},
+                      {"op": "select", "a": 0, "dim": "d1", "val": 5, "drop": False},
+                      {"op": "select", "a": 1, "dim": "d1", "val": 5, "drop": False}], "internal": [], "vseed": 0, "float": False}
     try:
-        from ekw import c13_fluent as F
-        a = F.exec_stmt({"op": "source", "dims": [["d0", [0, 10]]], "base": 0}, [])
-        s1 = a.select({"d0": 0})
-        crit = {"d0": 0}
+        a = F.exec_stmt(prog["stmts"][0], [])
+        s1 = a.select({"d1": 5})
+        crit = {"d1": 5}
+        before = snapshot(s1)
+        for how in ("select", "iselect", "sel", "isel"):
+            getattr(s1, how)(dict(crit))
+            getattr(s1, how)(**crit)
         s1.select(crit)
-        if crit != {"d0": 0}:
+        after = snapshot(s1)
+        ctx.count("directed:criteria_on_scalar_coordinate")
+        if after != before:
+            what = [k for k in SNAP_KEYS if after[k] != before[k]]
+            ctx.violation({"kind": "operand-mutated", "op": "select", "changed": what[0]}, {"prog": prog},
+                          f"s.select({{'d1': 5}}) on an action whose scalar coordinate d1 is 5 changed {what} of s itself: "
+                          f"{before['coords']} -> {after['coords']}")
+        if crit != {"d1": 5}:
             ctx.count("observed:select_mutates_the_callers_criteria_dict")
             ctx.notes.append("observation (outside the property text): Action.select removes the matched scalar-coordinate keys from the criteria dict its caller passed")
     except Exception as e:
-        ctx.notes.append(f"criteria-dict observation failed: {type(e).__name__}")
+        ctx.disagree("directed-case", {"stmts": prog["stmts"]}, "select with a criterion on a scalar coordinate hands the action back", f"{type(e).__name__}: {str(e)[:120]}")
 
 
 def _count_features(ctx, p, env):
@@ -1055,6 +1460,14 @@ def _count_features(ctx, p, env):
                 ctx.count("same_callable_one_and_several_outputs_ok")
         if "static" in st and ok:
             ctx.count("static:" + next(iter(st["static"])))
+        if "scalar" in st and ok:
+            ctx.count("scalar_operand:" + type(st["scalar"]).__name__)
+        if st["op"] == "map" and st.get("fn") == "affine" and ok:
+            ctx.count("affine_k:" + type(st["k"]).__name__)
+        if st["op"] in ("select", "iselect") and "val" in st and "dim" in st and st["a"] < len(env) and not isinstance(env[st["a"]], tuple):
+            n_ = env[st["a"]].nodes
+            if st["dim"] not in n_.dims and st["dim"] in n_.coords:
+                ctx.count("criterion_on_scalar_coordinate:" + ("handed_back" if ok and r is env[st["a"]] else "new_action" if ok else "refused"))
         if st["op"] == "transform" and st.get("func") == "lookup":
             ctx.count("transform_lookup" + ("_ok" if ok else "_raises"))
             if ok and any(j != st["a"] for j in st["r"]):
@@ -1094,15 +1507,20 @@ def search(ctx, why):
         p = gen_program(ctx.rng, max_ops=5)
         try:
             env, viol = oracle_program(p)
-        except Exception:
+        except Exception as e:
+            ctx.count("oracle_crashed")
+            ctx.disagree("oracle-crash", {"stmts": p["stmts"][:10]}, "the oracle judges the program", f"{type(e).__name__}: {str(e)[:160]}")
             continue
         ctx.count("search_programs")
         for sig, text, roots in viol[:2]:
             ctx.violation(sig, {"prog": _shrink(p, roots, sig)}, text)
     if not _unknown_violation(ctx):
         # state that survives between builds shows only in a pristine process
-        for p in _witnesses()[:ctx.budget(2, 4)]:
-            v = _fresh_differs(p)
+        from ekw import c13_fluent as F
+        from ekw import c14_fresh as X
+        ws = _witnesses()
+        for p in ws[:ctx.budget(2, 4)] + [w for w in ws if any("set" in str(st.get("static", "")) for st in w["stmts"])][:1]:
+            v = _fresh_differs(p, X.names_of_env(F.run_real(p)))      # also against this process (another string-hash seed)
             if v and not v[2]:
                 ctx.violation({"kind": "not-deterministic", "what": "names"}, {"prog": _clean(p), "fresh": True}, v[1])
                 break
